@@ -89,7 +89,8 @@ class Engine(EngineBase):
             elif k == "remove":
                 ops.append([k, rng.randrange(100)])
             elif k == "rekey":
-                ops.append([k, rng.randrange(100), rng.choice(KEYS + "c"), rng.choice(VALS)])
+                ops.append([k, rng.randrange(100), rng.choice(KEYS + "c"), rng.choice(VALS),
+                            rng.choice(["item", "item", "assign", "update"])])
             else:
                 ops.append([k])
         return {"knobs": knobs, "ops": ops}
@@ -180,10 +181,30 @@ class Run:
         if jid is None:
             return
         new = {**self.model[jid], op[2]: op[3]}
-        if cid(new) in self.model:
-            return
+        route = op[4] if len(op) > 4 else "item"
         job = self.proj.open_job(id=jid)
-        job.sp[op[2]] = op[3]
+
+        def go():
+            if route == "assign":
+                job.statepoint = dict(new)
+            elif route == "update":
+                job.update_statepoint({op[2]: op[3]}, overwrite=True)
+            else:
+                job.sp[op[2]] = op[3]
+
+        if cid(new) == jid:
+            return
+        if cid(new) in self.model:
+            # the destination exists: the re-key is refused and neither job (nor what any session
+            # knows about them) changes
+            try:
+                go()
+            except self.signac.errors.DestinationExistsError:
+                self.probe("rekey_refused")
+                return
+            raise Mismatch("C08", "C08:rekey-onto-existing-job-not-refused",
+                           f"re-keying {jid[:8]} to {new} (an existing job) did not raise")
+        go()
         del self.model[jid]
         self.model[cid(new)] = norm(new)
         self.ever[cid(new)] = norm(new)
